@@ -332,15 +332,52 @@ fn gen_statements(fields: &Fields, encoding: Encoding) -> syn::Result<proc_macro
             let tag  = decode_tag(&field.attrs);
             let name = &field.ident;
 
-            quote! {{
-                let __p779 = __d777.position();
+            // Encoders which do not know this field put a plain `null` at its
+            // position. If the field is tagged we would otherwise insist on
+            // the tag, so a field whose type has a nil value accepts `null`
+            // without it and keeps its initial value.
+            let bare_null =
+                if field.attrs.tag().is_none() {
+                    None
+                } else if let Some(cd) = field.attrs.codec() {
+                    if let Some(p) = cd.to_nil_path() {
+                        Some(quote!(#p().is_some()))
+                    } else if is_option(&field.typ, |_| true) {
+                        Some(quote!(true))
+                    } else {
+                        None
+                    }
+                } else if is_option(&field.typ, |_| true) {
+                    Some(quote!(true))
+                } else {
+                    let ty = &field.typ;
+                    Some(quote!(<#ty as minicbor::Decode::<Ctx>>::nil().is_some()))
+                };
+
+            let action = quote! {
                 #tag
                 match #decode_fn(__d777, __ctx777) {
                     Ok(__v777) => #name = #value,
                     #unknown_var_err
                     Err(e) => return Err(e)
                 }
-            }}
+            };
+
+            if let Some(has_nil) = bare_null {
+                quote! {{
+                    let __p779 = __d777.position();
+                    if minicbor::data::Type::Null == __d777.datatype()? && #has_nil {
+                        __d777.skip()?
+                    } else {
+                        #action
+                    }
+                }}
+            } else {
+                quote! {{
+                    let __p779 = __d777.position();
+                    #action
+                }}
+            }
     })
     .collect::<Vec<_>>();
 
